@@ -365,10 +365,18 @@ PHASED = {
                   [("any", ["tbig", "tdwa", "t1", "dwa", "close", "swap", "dpr", "req", "ans", "appreq", "appreq1", "ansreq", "stall",
                             "unstall"], 3)]),
     "realms": ((3,), ["accept", "cer_known", "accept_bg", "bg_cer"],
-               [("any", ["req", "req_other", "swap", "ans", "appreq", "req_app"], 3)]),
+               [("any", ["req", "req_other", "swap", "ans", "appreq", "req_app", "close", "dpr", "tbig"], 3)]),
+    # the node itself keeps sending (requests, late answers) while the peer says nothing: only what is RECEIVED counts
+    # as activity for the watchdog
+    "busy_sender": ((0, 1), ["accept", "cer_known", "req"],
+                    [("any", ["appreq", "t3", "tdwa", "dwa", "ans"], 4)]),
     "fragments": ((0, 1), ["accept", "cer_known"],
                   [("any", ["frag", "frag_rest", "t1", "tdwa", "tbig", "dwr"], 4)]),
 }
+
+
+# themes whose sequences up to this length are all run (longer ones are sampled)
+KEEP_LEN = {"busy_sender": 3}
 
 
 def phased_sequences(theme):
@@ -393,8 +401,9 @@ def enumerate_phased(theme, limit=None, seed=0):
     if limit is not None and len(seqs) > limit:
         seqs.sort(key=len)
         shortest = len(seqs[0])
-        keep = [q for q in seqs if len(q) <= shortest + 2][:limit]
-        rest = [q for q in seqs if len(q) > shortest + 2]
+        full = KEEP_LEN.get(theme, shortest + 2)
+        keep = [q for q in seqs if len(q) <= full][:limit]
+        rest = [q for q in seqs if len(q) > full]
         seqs = keep + random.Random(seed).sample(rest, max(0, min(len(rest), limit - len(keep))))
     seen = set()
     for k, seq in enumerate(seqs):
